@@ -18,6 +18,8 @@ use std::time::Duration;
 
 #[derive(Clone, Debug)]
 pub struct Cfg { pub w: u16, pub h: u16, pub lay: u32, pub name: String, pub dom: String, pub user: String, pub pw: String, pub hash: bool, pub ra: bool, pub blank: bool, pub auto: bool, pub nla: bool, pub check: bool }
+/// when set: (which CredSSP reply, bytes) — the server answers that round with these bytes instead (C02 `nlagate`)
+pub static NLA_FAULT: std::sync::Mutex<Option<(u8, Vec<u8>)>> = std::sync::Mutex::new(None);
 #[derive(Clone, Debug)]
 pub struct SrvCfg { pub sel: u32, pub id: usize, pub uid: u16, pub version: u32, pub license_new: bool, pub share: u32, pub caps: Vec<Vec<u8>>, pub source: Vec<u8>, pub chal_flags: u32, pub inputs: Vec<String>, pub script: Vec<Act>, pub reactivate: Option<u32>, pub reuse: u8, pub jrefuse: u8, pub ber: u8 }
 #[derive(Clone, Debug)]
@@ -69,7 +71,16 @@ pub fn serve(raw: UnixStream, s: SrvCfg, acc_key: Vec<u8>, rawlog: Arc<Mutex<Vec
         let mut ti = av(2, &utf16("DOM")); ti.extend(av(7, &[1, 2, 3, 4, 5, 6, 7, 8])); ti.extend(av(0, &[]));
         log.chal = challenge(s.chal_flags, &sc, &ti, version, 0, 0);
         log.m1 = match read_der(&mut tls) { Some(m) => m, None => { log.note = "no m1".into(); return log; } };
-        if !write_all(&mut tls, &ts_request(Some(&log.chal), None, 2)) { return log; }
+        let fault = NLA_FAULT.lock().unwrap().clone();
+        if let Some((1, junk)) = &fault {
+            // a first reply that is not a TSRequest; the server then serves whatever the client sends next
+            if junk.is_empty() { let _ = tls.shutdown(); } else if !write_all(&mut tls, junk) { return log; }
+        } else if !write_all(&mut tls, &ts_request(Some(&log.chal), None, 2)) { return log; }
+        if let Some((1, _)) = &fault {
+            // anything further is recorded as MCS-level frames
+            loop { let f = match read_tpkt(&mut tls) { Some(f) => f, None => break }; log.frames.push(f); }
+            return log;
+        }
         log.m2 = match read_der(&mut tls) { Some(m) => m, None => { log.note = "no m2".into(); return log; } };
         let f = parse_ts_request(&log.m2).unwrap_or_default();
         let k = match recover_exported_key(&acc_key, &sc, &f.nego.clone().unwrap_or_default()) { Some(k) => k, None => { log.note = "NT proof does not verify".into(); return log; } };
@@ -77,6 +88,12 @@ pub fn serve(raw: UnixStream, s: SrvCfg, acc_key: Vec<u8>, rawlog: Arc<Mutex<Vec
         let mut seal = ServerSeal::new(&k);
         let _ = seal.unseal(&f.pub_key_auth.clone().unwrap_or_default());
         log.r2 = ts_request(None, Some(&seal.seal(&le_add(&spk, 1).unwrap())), 2);
+        if let Some((2, junk)) = &fault {
+            log.r2 = junk.clone();
+            if junk.is_empty() { let _ = tls.shutdown(); } else if !write_all(&mut tls, junk) { return log; }
+            loop { let f = match read_tpkt(&mut tls) { Some(f) => f, None => break }; log.frames.push(f); }
+            return log;
+        }
         if !write_all(&mut tls, &log.r2) { return log; }
         log.m3 = match read_der(&mut tls) { Some(m) => m, None => { log.note = "no m3".into(); return log; } };
         if let Some(ai) = parse_ts_request(&log.m3).and_then(|f| f.auth_info) { if let Some((pt, good)) = seal.unseal(&ai) { if good { log.creds = Some(pt); } } }
@@ -160,7 +177,10 @@ pub fn serve(raw: UnixStream, s: SrvCfg, acc_key: Vec<u8>, rawlog: Arc<Mutex<Vec
     log
 }
 
-pub fn layout_of(v: u32) -> KeyboardLayout { if v == 0x40c { KeyboardLayout::French } else if v == 0x407 { KeyboardLayout::German } else { KeyboardLayout::US } }
+pub fn layout_of(v: u32) -> KeyboardLayout {
+    match v { 0x40c => KeyboardLayout::French, 0x407 => KeyboardLayout::German, 0x411 => KeyboardLayout::Japanese, 0x412 => KeyboardLayout::Korean,
+              0x401 => KeyboardLayout::Arabic, 0x404 => KeyboardLayout::ChineseUsKeyboard, 0x414 => KeyboardLayout::Norwegian, _ => KeyboardLayout::US }
+}
 
 fn parse_event(s: &str) -> Option<RdpEvent> {
     let c = s.chars().next()?;
@@ -214,7 +234,12 @@ pub fn run_conn(c: &Cfg, s: &SrvCfg) -> Run {
             3 => con.set_restricted_admin_mode(!c2.ra).blank_creds(!c2.blank).auto_logon(!c2.auto).use_nla(!c2.nla).blank_creds(c2.blank).set_restricted_admin_mode(c2.ra),
             _ => con.set_restricted_admin_mode(c2.ra).blank_creds(c2.blank),
         };
-        let mut con = con.auto_logon(c2.auto).use_nla(c2.nla).layout(layout_of(c2.lay)).name(c2.name.clone()).check_certificate(c2.check);
+        // 4 / 5: the certificate policy is set BEFORE the protocol switches (the order mstsc-rs uses), or between two of them
+        let mut con = match hist {
+            4 => con.check_certificate(c2.check).auto_logon(c2.auto).use_nla(c2.nla).layout(layout_of(c2.lay)).name(c2.name.clone()),
+            5 => con.use_nla(!c2.nla).check_certificate(c2.check).use_nla(c2.nla).auto_logon(c2.auto).layout(layout_of(c2.lay)).name(c2.name.clone()),
+            _ => con.auto_logon(c2.auto).use_nla(c2.nla).layout(layout_of(c2.lay)).name(c2.name.clone()).check_certificate(c2.check),
+        };
         if c2.hash { con = con.set_password_hash(nt_hash.clone()); }
         // the SAME Connector used before: for a complete earlier connection (1), or for an attempt the
         // server answered with a negotiation failure (2)
@@ -321,18 +346,36 @@ pub fn secrets_violation(c: &Cfg, r: &Run) -> Option<String> {
 pub fn tlsgate(em: &mut Emitter, check: bool, nla: bool, ra: bool, ssel: u32) {
     let c = Cfg { w: 800, h: 600, lay: 0x409, name: "rdp-rs".into(), dom: "d".into(), user: "u".into(), pw: "secret-pw".into(), hash: false, ra, blank: false, auto: false, nla, check };
     let s = SrvCfg { sel: ssel, id: 1, uid: 1004, version: 0x80004, license_new: false, share: 0x103ea, caps: default_caps(), source: vec![], chal_flags: 0x62898235, inputs: vec![], script: vec![], reactivate: None, reuse: 0, jrefuse: 0, ber: 0 };
-    watch_begin(&format!("tlsgate check={} nla={} ra={} ssel={} sel=0", check as u8, nla as u8, ra as u8, ssel));
+    let hist = BUILDER_HIST.load(std::sync::atomic::Ordering::Relaxed);
+    watch_begin(&format!("tlsgate hist={} check={} nla={} ra={} ssel={} sel=0", hist, check as u8, nla as u8, ra as u8, ssel));
     let r = run_conn(&c, &s);
     let tls_up = r.log.note != "tls accept failed" && (!r.log.m1.is_empty() || !r.log.frames.is_empty());
     let cred = !r.log.m1.is_empty() || !r.log.m2.is_empty() || r.log.frames.len() > 5;
     let out = format!("tls={} cred={} connect={} req={}", if tls_up { "up" } else { "refused" }, cred as u8, if r.status == "ok" { "ok" } else { "E" }, hex(&r.log.cr));
-    let line = format!("tlsgate check={} nla={} ra={} ssel={} sel={}", check as u8, nla as u8, ra as u8, ssel, r.log.sel);
+    let line = format!("tlsgate hist={} check={} nla={} ra={} ssel={} sel={}", hist, check as u8, nla as u8, ra as u8, ssel, r.log.sel);
     let mut obs = Obs::new(out).nt(true).tag("tlsgate");
     if check && (tls_up || cred) { obs = obs.viol("certificate checking enabled, untrusted certificate, but the client went on"); }
     // the reference server's view of the negotiation: what it selected must be in the request it received
     let offered = if r.log.cr.len() >= 19 { u32::from_le_bytes([r.log.cr[15], r.log.cr[16], r.log.cr[17], r.log.cr[18]]) } else { 0 };
     if (tls_up || cred) && r.log.sel & offered == 0 { obs = obs.viol("the client went on although the server selected a protocol that was not in the request"); }
     if offered != if nla { 3 } else { 1 } { obs = obs.viol("the negotiation request does not offer what the configuration asks for"); }
+    em.case(&line, move || obs);
+}
+
+/// C02 `nlagate`: the server selects Hybrid and completes TLS, then answers CredSSP round `which` with `junk`
+/// (not a TSRequest).  The connection must fail and no MCS frame may follow.
+pub fn nlagate(em: &mut Emitter, which: u8, junk_hex: &str) {
+    let c = Cfg { w: 800, h: 600, lay: 0x409, name: "rdp-rs".into(), dom: "d".into(), user: "u".into(), pw: "secret-pw".into(), hash: false, ra: false, blank: false, auto: false, nla: true, check: false };
+    let s = SrvCfg { sel: 2, id: 1, uid: 1004, version: 0x80004, license_new: false, share: 0x103ea, caps: default_caps(), source: vec![], chal_flags: 0x62898235, inputs: vec![], script: vec![], reactivate: None, reuse: 0, jrefuse: 0, ber: 0 };
+    let line = format!("nlagate {} {}", which, if junk_hex.is_empty() { "-" } else { junk_hex });
+    watch_begin(&line);
+    *NLA_FAULT.lock().unwrap() = Some((which, unhex(junk_hex)));
+    let r = run_conn(&c, &s);
+    *NLA_FAULT.lock().unwrap() = None;
+    let out = format!("connect={} mcs={}", if r.status == "ok" { "ok" } else { "E" }, r.log.frames.len());
+    let mut obs = Obs::new(out).nt(true).tag("nlagate");
+    if r.status == "ok" || !r.log.frames.is_empty() { obs = obs.viol("NLA was selected and did not complete, yet the client went on"); }
+    if r.status == "P" { obs = obs.viol("panic"); }
     em.case(&line, move || obs);
 }
 
@@ -394,7 +437,8 @@ pub fn run_case(toks: &[&str], em: &mut Emitter) {
     let b = |k: &str| get(k) == "1";
     let c = Cfg { w: get("w").parse().unwrap_or(800), h: get("h").parse().unwrap_or(600), lay: get("lay").parse().unwrap_or(0x409), name: s8("name"), dom: s8("dom8"), user: s8("usr8"), pw: s8("pwd8"), hash: b("hash"), ra: b("ra"), blank: b("blank"), auto: b("auto"), nla: b("nla"), check: b("check") };
     let caps: Vec<Vec<u8>> = get("caps").split(',').filter(|x| !x.is_empty()).map(|x| unhex(x)).collect();
-    if toks[0] == "tlsgate" { tlsgate(em, b("check"), b("nla"), b("ra"), get("ssel").parse().unwrap_or(0)); return; }
+    if toks[0] == "nlagate" { nlagate(em, toks[1].parse().unwrap_or(1), if toks[2] == "-" { "" } else { toks[2] }); return; }
+    if toks[0] == "tlsgate" { BUILDER_HIST.store(get("hist").parse().unwrap_or(0), std::sync::atomic::Ordering::Relaxed); tlsgate(em, b("check"), b("nla"), b("ra"), get("ssel").parse().unwrap_or(0)); BUILDER_HIST.store(0, std::sync::atomic::Ordering::Relaxed); return; }
     let s = SrvCfg { sel: get("ssel").parse().unwrap_or(0), id: get("id").parse().unwrap_or(1), uid: get("uid").parse().unwrap_or(1004), version: get("ver").parse().unwrap_or(0x80004), license_new: b("licnew"), share: get("share").parse().unwrap_or(0x103ea),
         caps, source: unhex(&get("source")), chal_flags: u32::from_str_radix(&get("cflags"), 16).unwrap_or(0), inputs: get("inputs").split(',').filter(|x| !x.is_empty()).map(|x| x.to_string()).collect(), script: vec![], reactivate: get("react").parse().ok(), reuse: get("reuse").parse().unwrap_or(0), jrefuse: get("jrefuse").parse().unwrap_or(0), ber: get("ber").parse().unwrap_or(0) };
     BUILDER_HIST.store(get("hist").parse().unwrap_or(0), std::sync::atomic::Ordering::Relaxed);
@@ -459,7 +503,7 @@ pub fn generate(prop: &str, thorough: bool, seed: u64, part: (usize, usize), em:
     for round in 0..rounds {
         for mode in 0..32u32 {
             idx += 1; if idx % part.1 != part.0 { continue; }
-            let c = Cfg { w: *r.pick(&[800u16, 1024, 640, 1, 4096, 65535]), h: *r.pick(&[600u16, 768, 480, 1, 2048]), lay: *r.pick(&[0x409u32, 0x40c, 0x407]),
+            let c = Cfg { w: *r.pick(&[800u16, 1024, 640, 1, 4096, 65535]), h: *r.pick(&[600u16, 768, 480, 1, 2048]), lay: *r.pick(&[0x409u32, 0x40c, 0x407, 0x411, 0x412, 0x401, 0x404, 0x414]),
                 name: if round == 0 { "rdp-rs".into() } else { r.pick(&strs).to_string() }, dom: r.pick(&["", "DOMAIN", "домен"]).to_string(), user: r.pick(&strs).to_string(), pw: r.pick(&pws).to_string(),
                 nla: mode & 1 != 0, ra: mode & 2 != 0, blank: mode & 4 != 0, auto: mode & 8 != 0, hash: mode & 16 != 0, check: false };
             let mut flags: u32 = 0x40000000 | 0x20000000 | 0x00800000 | 0x00080000 | 0x00008000 | 0x00000200 | 0x00000020 | 0x00000010 | 0x00000004;
@@ -491,7 +535,7 @@ pub fn generate(prop: &str, thorough: bool, seed: u64, part: (usize, usize), em:
     let n = if thorough { 1500 } else { 150 };
     for i in 0..n {
         idx += 1; if idx % part.1 != part.0 { continue; }
-        let c = Cfg { w: r.range(1, 65535) as u16, h: r.range(1, 65535) as u16, lay: *r.pick(&[0x409u32, 0x40c, 0x407]), name: r.pick(&strs).to_string(), dom: r.pick(&strs).to_string(), user: r.pick(&strs).to_string(), pw: r.pick(&pws).to_string(),
+        let c = Cfg { w: r.range(1, 65535) as u16, h: r.range(1, 65535) as u16, lay: *r.pick(&[0x409u32, 0x40c, 0x407, 0x411, 0x412, 0x401, 0x404, 0x414]), name: r.pick(&strs).to_string(), dom: r.pick(&strs).to_string(), user: r.pick(&strs).to_string(), pw: r.pick(&pws).to_string(),
             nla: r.chance(1, 2), ra: r.chance(1, 5), blank: r.chance(1, 5), auto: r.chance(1, 3), hash: r.chance(1, 5), check: false };
         let uid = match i % 5 { 0 => 1001, 1 => 65535, 2 => 1002, _ => r.range(1001, 65535) as u16 };
         let mut caps = default_caps();
@@ -500,7 +544,7 @@ pub fn generate(prop: &str, thorough: bool, seed: u64, part: (usize, usize), em:
         let ninp = r.below(4) as usize;
         let inputs: Vec<String> = (0..ninp).map(|_| if r.chance(1, 2) { format!("P{}:{}:{}:{}", r.below(65536), r.below(65536), r.below(4), r.below(2)) } else { format!("K{}:{}", r.below(256), r.below(2)) }).collect();
         let nsrc = r.below(6) as usize;
-        let s = SrvCfg { sel: if c.nla && r.chance(1, 3) { 1 } else { 0 }, id: 1 + i % 2, uid, version: *r.pick(&[0x80004u32, 0x80001, 0x80005, 0x80010]), license_new: r.chance(1, 2), share: r.next() as u32,
+        let s = SrvCfg { sel: if c.nla && r.chance(1, 3) { 1 } else { 0 }, id: 1 + i % 2, uid, version: *r.pick(&[0x80004u32, 0x80001, 0x80005, 0x80010]), license_new: r.chance(1, 2), share: match i % 6 { 1 => 0, 4 => 0xffff_ffff, _ => r.next() as u32 },
             caps, source: r.bytes(nsrc), chal_flags: 0x62898235 | if r.chance(1, 2) { 0x02000000 } else { 0 }, inputs, script: vec![], reactivate: match r.below(5) { 0 | 1 => Some(r.next() as u32), 2 => Some(0), _ => None }, reuse: if i % 7 == 3 { 1 } else if i % 7 == 5 { 2 } else { 0 }, jrefuse: if i % 11 == 4 { 1 + (i / 11 % 3) as u8 } else { 0 }, ber: if i % 5 == 2 { 1 + (i / 5 % 2) as u8 } else { 0 } };
         let run = emit(em, &c, &s);
         if prop == "C04" { emit_strict(em, &run, &mut seen); }
